@@ -55,6 +55,7 @@ func runC06(c *Config, r *Report) {
 	c06R11(ic, r, "R06.11")
 	c06R12(ic, r)
 	c06R13(ic, r)
+	c06R16(ic, r)
 	c06R14(ic, r)
 	// R06.6: defers, recover and panics inside instantiated generic code rest on the AST copy
 	// being identical to a freshly built tree (same analysis as C01/R01.4).
@@ -1226,4 +1227,91 @@ func checkChildIndexes(ic *IC, r *Report, rule string, units []childIndexUnit, w
 		})
 	}
 	return nIdx
+}
+
+func init() {
+	ruleText["R06.16"] = "in every run-time closure recording a deferred call, the function value of the record (element 0) is never the plain result of a value generator: it is a copy (the argument copier), a function built in the closure (reflect.MakeFunc / reflect.ValueOf of a literal) or a wrapper generated for a node whose receiver record was filled in the closure - the function value and the receiver of a deferred call are fixed when the defer statement executes, like its arguments"
+}
+
+// c06R16: found D81 (defer fn() with fn reassigned later; defer t.show() with t modified later).
+func c06R16(ic *IC, r *Report) {
+	info := ic.Info
+	cp := copiers(ic)
+	isValueFn := func(t types.Type) bool {
+		sg, ok := t.Underlying().(*types.Signature)
+		if !ok || sg.Params().Len() != 1 || sg.Results().Len() != 1 {
+			return false
+		}
+		return isNamedPtr(sg.Params().At(0).Type(), "frame") && types.TypeString(sg.Results().At(0).Type(), nil) == "reflect.Value"
+	}
+	n := 0
+	for _, name := range sortedKeys(ic.F) {
+		fi := ic.F[name]
+		if fi.Decl.Body == nil {
+			continue
+		}
+		k := 0
+		for _, fl := range (&c02ctx{ic: ic}).closuresOf(fi) {
+			// records prepended to the deferred list
+			recs := map[types.Object]bool{}
+			ast.Inspect(fl.Body, func(m ast.Node) bool {
+				as, ok := m.(*ast.AssignStmt)
+				if !ok || len(as.Lhs) != 1 || len(as.Rhs) != 1 {
+					return true
+				}
+				if v := selField(info, as.Lhs[0]); v == nil || v.Name() != "deferred" {
+					return true
+				}
+				ast.Inspect(as.Rhs[0], func(q ast.Node) bool {
+					if cl, ok := q.(*ast.CompositeLit); ok {
+						for _, e := range cl.Elts {
+							if id := identOf(e); id != nil {
+								recs[info.ObjectOf(id)] = true
+							}
+						}
+					}
+					return true
+				})
+				return true
+			})
+			if len(recs) == 0 {
+				continue
+			}
+			ast.Inspect(fl.Body, func(m ast.Node) bool {
+				as, ok := m.(*ast.AssignStmt)
+				if !ok || len(as.Lhs) != 1 || len(as.Rhs) != 1 {
+					return true
+				}
+				ix, ok := unparen(as.Lhs[0]).(*ast.IndexExpr)
+				if !ok {
+					return true
+				}
+				if id := identOf(ix.X); id == nil || !recs[info.ObjectOf(id)] {
+					return true
+				}
+				if tv, ok := info.Types[ix.Index]; !ok || tv.Value == nil || tv.Value.ExactString() != "0" {
+					return true
+				}
+				n++
+				k++
+				plain := false
+				if c, ok := unparen(as.Rhs[0]).(*ast.CallExpr); ok {
+					if fid := identOf(c.Fun); fid != nil {
+						if _, isFunc := info.ObjectOf(fid).(*types.Func); !isFunc && isValueFn(info.TypeOf(fid)) {
+							plain = true
+						}
+						if f, isFunc := info.ObjectOf(fid).(*types.Func); isFunc && cp[f] {
+							plain = false
+						}
+					}
+				}
+				r.Check(!plain, "R06.16", fmt.Sprintf("%s/deferred-record#%d/function-value-fixed-at-the-statement", name, k), ic.pos(as.Pos()), "the function value of the record is fixed when the defer statement executes",
+					name+" records "+types.ExprString(as.Rhs[0])+" as the function of a deferred call: the plain result of a value generator still designates the variable (or re-evaluates the receiver expression when called), so fn := f1; defer fn(); fn = f2 runs f2, and defer t.show() sees the later value of t")
+				return true
+			})
+		}
+	}
+	if n < 3 {
+		r.Errorf("R06.16: only %d deferred records found (three defer forms expected)", n)
+	}
 }
